@@ -1,24 +1,36 @@
-// lalr: reads the goyacc output lib/parser/parser.go (and the lexer wrapper lib/parser/lexer.go) and prints
-// Csvq/Gen/LalrTables.lean (property C18):
+// lalr: reads the goyacc output lib/parser/parser.go (and the lexer wrapper lib/parser/lexer.go, the scanner's token
+// code declaration in scanner.go) and prints one of two Lean files (property C18), chosen by the argument:
 //
-//	yyExca yyAct yyPact yyPgo yyR1 yyR2 yyChk yyDef yyTok1 yyTok2 yyTok3  → Array Int literals
-//	yyLast yyPrivate yyFlag yyEofCode yyErrCode yyInitialStackSize          → defs
+// `lalr tables` → Csvq/Gen/LalrTables.lean
+//
+//	yyExca yyAct yyPact yyPgo yyR1 yyR2 yyChk yyDef yyTok1 yyTok2 yyTok3  → one packed number per table (entry i = bits
+//	    [16 i, 16 i + 16) minus 32768) and its length; the decimal entries are repeated in the doc comment
+//	yyLast yyPrivate yyFlag yyEofCode yyErrCode yyInitialStackSize, unknownCharacter (lexer.go) → defs
 //	yyToknames, the token constants (IDENTIFIER = 57346 …)                  → Array String, List (String × Nat)
-//	the driver `func (yyrcvr *yyParserImpl) Parse(yylex yyLexer) int`       → driverText : List String, the go/printer
-//	    text of every top-level statement of its body, the semantic-action `switch yynt {…}` replaced by a placeholder
-//	yylex1, yyParse, Parse (the exported wrapper), (*Lexer).Lex              → lex1Text, yyParseText, parseText, lexText
-//	the cases of `switch yynt`                                              → actionCases : (case, window, max k, class)
-//	    window = N of `yyDollar = yyS[yypt-N : yypt+1]`, max k = the largest constant k of a `yyDollar[k]`,
-//	    class = "pure" (only `yyVAL.f = e` / `yylex.(*Lexer).f = e` with e built from composite literals, calls,
-//	    constants and `yyDollar[k].field` reads) or "other(<what else occurs>)"
+//	certificates computed from the tables (cert.go) — NOT trusted, Lean re-checks each of them against the tables:
+//	    which states may lie directly below which on the state stack (bit masks, 32 rows per number),
+//	    a depth lower bound per state, weight and rank per state (the termination measure), a residue table that
+//	    answers "index of the lowest set bit" for the kernel
 //
-// plus certificates computed from the tables (NOT trusted: Lean re-checks each of them against the arrays):
+// `lalr driver` → Csvq/Gen/LalrDriver.lean
 //
-//	packed copies of the arrays (one big Nat per table, 16 bits per entry, offset 32768) for constant-time reads in the kernel,
-//	for every state: the set of states that may lie directly / 2, 3, … entries below it on the stack (bit masks),
-//	a depth lower bound per state, and the weights of the termination measure.
+//	the driver `func (yyrcvr *yyParserImpl) Parse(yylex yyLexer) int` → driverText : List String, the go/printer text
+//	    of every top-level statement of its body, the semantic-action `switch yynt {…}` replaced by a placeholder
+//	yylex1, yyParse, Parse (the exported wrapper), (*Lexer).Lex, the const block of EOF / Uncategorized
+//	    → lex1Text, yyParseText, parseText, lexText, scannerConstText
+//	the cases of `switch yynt` → actionCases : (case, window, max k, class); window = N of
+//	    `yyDollar = yyS[yypt-N : yypt+1]`, max k = the largest constant k of a `yyDollar[k]`, class = "pure" (only
+//	    `yyVAL.f = e` / `yylex.(*Lexer).f = e` with e built from composite literals, calls, constants and
+//	    `yyDollar[k].field` reads) or "other(<what else occurs>)"; nonPureActions; yyR2 once more as a list
 //
-// Stdlib only. VERIF_REPO (default /repo). Exits 1 on anything it does not understand.
+// The tables file changes only when the grammar's tables change (its Lean check takes a minute and a half); the
+// driver file also when lexer.go or the loop's text changes.
+//
+// Stdlib only. VERIF_REPO (default /repo). Exits 1 on anything it does not understand: an integer table or yy
+// constant the model does not know, a non-empty yyErrorMessages / yyStatenames, a case of the action switch that is
+// not `yyDollar = yyS[yypt-N : yypt+1]` + one block, a `yyDollar` index that is not a positive constant, a statement
+// in an action that leaves the loop (return / goto / break / defer / go), tables that are not those of an LR
+// automaton (a reduction deeper than the stack can be, a cycle of reductions that keep the stack weight).
 package main
 
 import (
@@ -374,7 +386,7 @@ func (c *classifier) expr(e ast.Expr) {
 		if isIdent(x.X, "yylex") && src(x.Type) == "*Lexer" {
 			return
 		}
-		c.other("type assertion")
+		c.other("type assertion without ok")
 		c.expr(x.X)
 	case *ast.FuncLit:
 		c.other("function literal")
@@ -450,6 +462,13 @@ func (c *classifier) stmt(s ast.Stmt) {
 				c.other("assigns a local variable")
 			}
 			c.expr(l)
+		}
+		if len(x.Lhs) == 2 && len(x.Rhs) == 1 {
+			if ta, ok := x.Rhs[0].(*ast.TypeAssertExpr); ok {
+				c.other("type assertion with ok")
+				c.expr(ta.X)
+				break
+			}
 		}
 		for _, r := range x.Rhs {
 			c.expr(r)
@@ -699,66 +718,102 @@ func main() {
 		return fd
 	}
 
-	w.WriteString("/- GENERATED by extract/lalr from lib/parser/parser.go and lib/parser/lexer.go — do not edit.\n")
-	w.WriteString("   The goyacc tables, constants, token names, the text of the driver loop outside the semantic actions,\n")
-	w.WriteString("   the classification of the semantic actions, and certificates Lean re-checks (Csvq.Lemmas.LalrCert). -/\n")
-	w.WriteString("namespace Csvq.Gen.Lalr\n\n")
-	for _, n := range constNames {
-		fmt.Fprintf(&w, "def %s : Int := %d\n", n, pf.consts[n])
+	mode := "tables"
+	if len(os.Args) > 1 {
+		mode = os.Args[1]
 	}
-	w.WriteString("\n")
-	for _, n := range tableNames {
-		emitIntArray(n, pf.intArrays[n])
-	}
-	fmt.Fprintf(&w, "/-- yyToknames (%d names; token number k is entry k-1) -/\ndef yyToknames : Array String := #[", len(toknames))
-	for i, s := range toknames {
-		if i > 0 {
-			w.WriteString(", ")
+	switch mode {
+	case "tables":
+		w.WriteString("/- GENERATED by extract/lalr (mode tables) from lib/parser/parser.go — do not edit.\n")
+		w.WriteString("   The goyacc tables and constants, packed (entry i of a table = bits [16 i, 16 i + 16) of its number, minus 32768;\n")
+		w.WriteString("   the decimal entries are in the doc comments), the token names, and certificates Lean re-checks\n")
+		w.WriteString("   (Csvq/Lemmas/LalrCheck.lean): nothing below `maxTok` is trusted. -/\n")
+		w.WriteString("namespace Csvq.Gen.Lalr\n\n")
+		for _, n := range constNames {
+			fmt.Fprintf(&w, "def %s : Int := %d\n", n, pf.consts[n])
 		}
-		if i%8 == 0 {
-			w.WriteString("\n  ")
+		w.WriteString("\n")
+		for _, n := range tableNames {
+			emitIntArray(n, pf.intArrays[n])
 		}
-		w.WriteString(leanStr(s))
-	}
-	w.WriteString("]\n\n")
-	w.WriteString("/-- the token constants the scanner returns (`const IDENTIFIER = 57346` …) -/\ndef tokenConsts : List (String × Nat) := [")
-	first := true
-	for _, n := range pf.constOrd {
-		if strings.HasPrefix(n, "yy") {
-			continue
+		fmt.Fprintf(&w, "/-- yyToknames (%d names; token number k is entry k-1) -/\ndef yyToknames : Array String := #[", len(toknames))
+		for i, s := range toknames {
+			if i > 0 {
+				w.WriteString(", ")
+			}
+			if i%8 == 0 {
+				w.WriteString("\n  ")
+			}
+			w.WriteString(leanStr(s))
 		}
-		if !first {
-			w.WriteString(", ")
+		w.WriteString("]\n\n")
+		w.WriteString("/-- the token constants the scanner returns (`const IDENTIFIER = 57346` …) -/\ndef tokenConsts : List (String × Nat) := [")
+		first := true
+		for _, n := range pf.constOrd {
+			if strings.HasPrefix(n, "yy") {
+				continue
+			}
+			if !first {
+				w.WriteString(", ")
+			}
+			first = false
+			fmt.Fprintf(&w, "\n  (%s, %d)", leanStr(n), pf.consts[n])
 		}
-		first = false
-		fmt.Fprintf(&w, "\n  (%s, %d)", leanStr(n), pf.consts[n])
-	}
-	w.WriteString("]\n\n")
-
-	emitStrList("driverText", "every top-level statement of `(*yyParserImpl).Parse`, the action switch replaced by a placeholder", driver)
-	emitStrList("lex1Text", "`yylex1`", stmtTexts(need(pf, "yylex1")))
-	emitStrList("yyParseText", "`yyParse`", stmtTexts(need(pf, "yyParse")))
-	emitStrList("parseText", "`Parse` (the exported entry point)", stmtTexts(need(pf, "Parse")))
-	emitStrList("lexText", "`(*Lexer).Lex` of lexer.go", stmtTexts(need(lf, "Lexer.Lex")))
-	emitStrList("scannerConstText", "the declaration of the scanner's EOF / Uncategorized codes (scanner.go)", []string{constDeclText(filepath.Join(dir, "scanner.go"), "EOF")})
-	if v, ok := lf.consts["unknownCharacter"]; ok {
-		fmt.Fprintf(&w, "def unknownCharacter : Int := %d\n\n", v)
-	} else {
-		die("constant unknownCharacter not found in lexer.go")
-	}
-
-	w.WriteString("/-- the cases of `switch yynt`: (production, N of `yyDollar = yyS[yypt-N : yypt+1]`, largest k of a `yyDollar[k]`, class) -/\n")
-	w.WriteString("def actionCases : List (Nat × Nat × Nat × String) := [")
-	for i, a := range actions {
-		if i > 0 {
-			w.WriteString(",")
+		w.WriteString("]\n\n")
+		if v, ok := lf.consts["unknownCharacter"]; ok {
+			fmt.Fprintf(&w, "/-- lexer.go -/\ndef unknownCharacter : Int := %d\n\n", v)
+		} else {
+			die("constant unknownCharacter not found in lexer.go")
 		}
-		fmt.Fprintf(&w, "\n  (%d, %d, %d, %s)", a.num, a.window, a.maxK, leanStr(a.class))
+		emitCertificates(pf)
+	case "driver":
+		w.WriteString("/- GENERATED by extract/lalr (mode driver) from lib/parser/parser.go, lexer.go, scanner.go — do not edit.\n")
+		w.WriteString("   The text of the goyacc driver loop outside the semantic actions, of yylex1 and of the lexer wrapper\n")
+		w.WriteString("   (compared with the reviewed copy in Csvq/Ref/Lalr.lean), and the classification of the semantic actions. -/\n")
+		w.WriteString("namespace Csvq.Gen.Lalr\n\n")
+		emitStrList("driverText", "every top-level statement of `(*yyParserImpl).Parse`, the action switch replaced by a placeholder", driver)
+		emitStrList("lex1Text", "`yylex1`", stmtTexts(need(pf, "yylex1")))
+		emitStrList("yyParseText", "`yyParse`", stmtTexts(need(pf, "yyParse")))
+		emitStrList("parseText", "`Parse` (the exported entry point)", stmtTexts(need(pf, "Parse")))
+		emitStrList("lexText", "`(*Lexer).Lex` of lexer.go", stmtTexts(need(lf, "Lexer.Lex")))
+		emitStrList("scannerConstText", "the declaration of the scanner's EOF / Uncategorized codes (scanner.go)", []string{constDeclText(filepath.Join(dir, "scanner.go"), "EOF")})
+		w.WriteString("/-- the cases of `switch yynt`: (production, N of `yyDollar = yyS[yypt-N : yypt+1]`, largest k of a `yyDollar[k]`, class) -/\n")
+		w.WriteString("def actionCases : List (Nat × Nat × Nat × String) := [")
+		for i, a := range actions {
+			if i > 0 {
+				w.WriteString(",")
+			}
+			fmt.Fprintf(&w, "\n  (%d, %d, %d, %s)", a.num, a.window, a.maxK, leanStr(a.class))
+		}
+		w.WriteString("]\n\n")
+		w.WriteString("/-- the cases whose class is not \"pure\" -/\ndef nonPureActions : List (Nat × String) := [")
+		firstNP := true
+		for _, a := range actions {
+			if a.class == "pure" {
+				continue
+			}
+			if !firstNP {
+				w.WriteString(",")
+			}
+			firstNP = false
+			fmt.Fprintf(&w, "\n  (%d, %s)", a.num, leanStr(a.class))
+		}
+		w.WriteString("]\n\n")
+		// yyR2 once more, as a plain list: `actions_window` compares it with the windows above
+		w.WriteString("/-- yyR2 as a list (the same numbers as LalrTables.yyR2Bits; theorem driver_r2_eq_tables) -/\ndef r2List : List Nat := [")
+		for i, x := range pf.intArrays["yyR2"] {
+			if i > 0 {
+				w.WriteString(", ")
+			}
+			if x < 0 {
+				die("yyR2[%d] = %d is negative", i, x)
+			}
+			fmt.Fprintf(&w, "%d", x)
+		}
+		w.WriteString("]\n\n")
+	default:
+		die("usage: lalr tables|driver")
 	}
-	w.WriteString("]\n\n")
-
-	emitCertificates(pf)
-
 	w.WriteString("end Csvq.Gen.Lalr\n")
 	fmt.Print(w.String())
 }
